@@ -118,6 +118,10 @@ func (c *Conversation) End() (toSend []ValidMessage, err error) {
 		// Error can only happen when Rand reader is broken
 		toSend, _, err = c.createSerializedDataMessage(nil, messageFlagIgnoreUnreadable, []tlv{{tlvType: tlvTypeDisconnected}})
 	}
+	if previousMsgState != plainText {
+		// the last message of the session that ends here will not be sent again
+		c.resend.wipe()
+	}
 	c.lastMessageStateChange = time.Time{}
 	c.ake.wipe(true)
 	c.ake = nil
